@@ -350,6 +350,52 @@ def r7_record_layout(ctx, rule="C18.R7"):
     ctx.require(rule, 2)
 
 
+def r8_separator_classes(ctx, rule="C18.R8"):
+    """INPUT and LINE INPUT (file and console share ReadInputSource) split on separators: the
+    predicates they hand to skip_while / read_until are tabulated at the separator characters.
+    Skipping must never swallow a line end or a comma (a blank field or line would disappear);
+    INPUT stops at comma, CR and LF; LINE INPUT stops at CR and LF only."""
+    from .. import charpred
+    prog = ctx.prog
+    eng = charpred.engine(prog)
+    CR, LF, COMMA, SPACE, A = 13, 10, 44, 32, 65
+    n = 0
+    for meth, stops, passes in (("input", (COMMA, CR, LF), (A,)), ("line_input", (CR, LF), (COMMA, A, SPACE))):
+        fs = [f for f in prog.fns.values() if f.name == meth and "read_input" in f.path and f.impl
+              and "Input" in (f.impl.get("trait_ref") or "")]
+        if len(fs) != 1:
+            raise CheckError("anchor <ReadInputSource as Input>::%s" % meth)
+        fn = fs[0]
+        seen_until = 0
+        for b, t in fn.body.calls():
+            name = mir.callee_path(t).split("::")[-1]
+            if name not in ("skip_while", "read_until") or len(t["args"]) < 2:
+                continue
+            pred = charpred.pred_of_operand(prog, fn, t["args"][1])
+            if pred is None:
+                raise CheckError("%s: predicate of %s not recognised" % (meth, name))
+            vals = {c: charpred.predicate_value(eng, prog, pred, c) for c in (CR, LF, COMMA, SPACE, A)}
+            loc = "%s:%s" % (fn.file, t.get("ln"))
+            n += 1
+            if name == "skip_while":
+                bad = sorted(repr(chr(c)) for c in (CR, LF, COMMA) if vals[c] != {0})
+                ctx.decide(not bad, rule, "%s:%s:skip-keeps-separators" % (rule, meth), loc,
+                           "the skipped class contains no separator",
+                           "%s skips %s before reading a field: an empty field / blank line written with PRINT # "
+                           "is swallowed and the following fields shift" % (meth, bad))
+            else:
+                seen_until += 1
+                bad = sorted(repr(chr(c)) for c in stops if vals[c] != {1}) + \
+                    sorted("not " + repr(chr(c)) for c in passes if vals[c] != {0})
+                ctx.decide(not bad, rule, "%s:%s:stops-at-its-separators" % (rule, meth), loc,
+                           "stops exactly at %s" % [chr(c) for c in stops],
+                           "%s reads a field up to a class that differs at %s" % (meth, bad))
+        if not seen_until:
+            raise CheckError("%s: no read_until call" % meth)
+    ctx.analysed_units(rule, predicates=n)
+    ctx.require(rule, 3)
+
+
 def run(ctx):
     common.install(ctx)
     r1_open_guard(ctx)
@@ -359,3 +405,4 @@ def run(ctx):
     r5_console_file_agree(ctx)
     r6_open_modes(ctx)
     r7_record_layout(ctx)
+    r8_separator_classes(ctx)
